@@ -99,7 +99,7 @@ def run(ctx):
         M = com.args[1 + iM]
         R = com.args[1 + iR]
         pa = Q.params(Q.leaves(A))
-        okA = pa == {"shares.*.first.%d" % sA} or all(p.startswith("shares.*.first.%d" % sA) for p in pa) and pa
+        okA = pa == {"shares.first.%d" % sA} or all(p.startswith("shares.first.%d" % sA) for p in pa) and pa
         ctx.add("C05.R3", "adss::recover#A-from-first", bool(okA),
                 "the recovered access structure must be the first share's; it depends on %s" % sorted(pa), at,
                 sample=sorted(pa))
@@ -111,7 +111,7 @@ def run(ctx):
                 ops = Q.flat_ops(Q.trace_of(v.args[1]))
                 last = [d for k, d, _ in ops if k == "recv_enc"][-1]
                 srcs = Q.params(Q.leaves(last))
-                okd = srcs == {"shares.*.first.%d" % fi}
+                okd = srcs == {"shares.first.%d" % fi}
             ctx.add("C05.R3", "adss::recover#%s-from-first" % nm, okd,
                     "recovered %s must be the decryption of the first share's field; ciphertext depends on %s"
                     % (nm, sorted(srcs)), at, sample=sorted(srcs))
@@ -130,19 +130,23 @@ def run(ctx):
         thr_ok = False
         for ev in evs:
             ps = Q.params(Q.leaves(ev["argv"][0]))
-            if ps and all(p.startswith("shares.*.first.%d" % sA) for p in ps):
+            if ps and all(p.startswith("shares.first.%d" % sA) for p in ps):
                 thr_ok = True
         ctx.add("C05.R3", "adss::recover#threshold-from-first", thr_ok and bool(evs),
                 "the threshold used for interpolation must be the first share's threshold", at)
-        # "first": the peek happens before anything consumes the iterator
+        # "first": obtained by peek() before anything consumes the iterator, or by first() / index 0 of the collection
         peeks = Q.calls(eng, "Peekable", in_fn="adss::recover")
-        cons = [e for e in Q.calls(eng, None, in_fn="adss::recover")
-                if (e.get("dname") or "").startswith("std::iter::Iterator::") and "peekable" not in (e.get("dname") or "")]
         cfg = fr.cfg
-        okp = bool(peeks) and all(cfg.dominates(peeks[0]["block"], e["block"]) for e in cons)
+        if peeks:
+            cons = [e for e in Q.calls(eng, None, in_fn="adss::recover")
+                    if (e.get("dname") or "").startswith("std::iter::Iterator::") and "peekable" not in (e.get("dname") or "")
+                    and any(Q.contains(a, lambda t: t.op == "adapted" and "peekable" in t.args[1:]) for a in e["argv"])]
+            okp = all(cfg.dominates(peeks[0]["block"], e["block"]) for e in cons)
+        else:
+            okp = all(p.startswith("shares.first") for p in pa) and bool(pa)
         ctx.add("C05.R3", "adss::recover#first-share", okp,
-                "the share that supplies threshold/ciphertexts/MAC must be obtained (peek) before the collection is consumed",
-                at, sample={"peek_at": peeks[0]["at"] if peeks else None})
+                "the share that supplies threshold/ciphertexts/MAC must be the first of the collection (peek before consumption, first(), or index 0)",
+                at, sample={"peek_at": peeks[0]["at"] if peeks else "first()/[0]"})
     else:
         ctx.add("C05.R3", "adss::recover#ok-shape", False, "Ok payload of recover is not a Commune aggregate", at)
     ctx.floor("C05.R1", 3)
